@@ -226,8 +226,12 @@ def replay(payload):
         for distr in ("lognorm", "gamma"):
             for tp in (np.array([0.0, 7.25, 1.5, 30.0]), 5):
                 for ne in (10.0, {"population_size": [5, 20], "time_breaks": [3]}):
-                    g = tsdate.build_prior_grid(ts, population_size=ne, timepoints=tp,
-                                                prior_distribution=distr)
+                    try:
+                        g = tsdate.build_prior_grid(ts, population_size=ne, timepoints=tp,
+                                                    prior_distribution=distr)
+                    except Exception as e:      # a valid input must get a grid
+                        bad.append((name, distr, "build_prior_grid raised", repr(e)[:200]))
+                        continue
                     t = np.asarray(g.timepoints, dtype=float)
                     if t[0] != 0 or np.any(np.diff(t) <= 0):
                         bad.append((name, distr, "grid not increasing from 0", t.tolist()))
